@@ -470,6 +470,9 @@ func replayFiles() []string {
 	if dir == "" {
 		return nil
 	}
+	if strings.Contains(dir, string(os.PathListSeparator)) {
+		return filepath.SplitList(dir)
+	}
 	if st, err := os.Stat(dir); err == nil && !st.IsDir() {
 		return []string{dir}
 	}
